@@ -266,6 +266,14 @@ def boundary_specs(sizes=(255, 256, 257), wrappers='ab', cut=True):
     for name in ('x9defu', 'x9lits', 'x9locs', 'x9netu'):
         specs.append({'names': [name, 'i1'], 'wrapper': 'a',
                       'extra_inputs': [bytes(range(1, 10)) + b'\x07', b'\xff' * 9 + b'\x07', b'\x80' + b'\x00' * 8 + b'\x07', bytes(range(1, 9))]})
+    # constant counts and sizes at the very start of a packet (so that only the start offset decides where they lie)
+    for N in (15, 16, 17, 32, 33, 64, 65, 256, 257):
+        for elem, width, en in ((I(1), 1, 'int1'), (I(2, end='little'), 2, 'int2l'), (D(C(2)), 2, 'data2')):
+            K = PKT('K', [('l', S(elem, C(N))), ('z', I(1))])
+            raw = _pat(N * width) + b'\x07'
+            specs.append({'P': K, 'tag': 'constant count %d of %s first' % (N, en), 'extra_inputs': [raw, raw[:-1], raw + b'\x01']})
+        K = PKT('K', [('d', D(C(N))), ('z', I(1))])
+        specs.append({'P': K, 'tag': 'constant size %d first' % N, 'extra_inputs': [_pat(N) + b'\x07', _pat(N)]})
     # far positions: holes longer than 255 / 256 / 4096 bytes
     for m, arg in (('at', 255), ('at', 256), ('at', 257), ('at', 300), ('at', 600), ('aligned', 512), ('shift', 300), ('at', 4097), ('aligned', 8192)):
         for elem, tail in ((I(1), b'A'), (D(C(3)), b'ABC')):
